@@ -262,6 +262,119 @@ def _cbrief(c):
 
 
 # ------------------------------------------------------------------------------------------------
+# SubFile: the member view of a compound file that is not memory-mapped
+
+def _subfile_program(rng, length, domain):
+    ops = []
+    pos_ok = True
+    for _ in range(rng.choice((2, 4, 8, 14))):
+        r = rng.random()
+        if r < 0.45:
+            n = rng.choice((0, 1, 1, 2, 3, 7, 8, 64, length, length + 1, max(0, length - 1), 10 ** 6))
+            if not domain and rng.random() < 0.3:
+                n = rng.choice((-1, -5))
+            ops.append(("read", n))
+        elif r < 0.55:
+            ops.append(("readall",))
+        elif r < 0.85:
+            if domain:
+                wh = rng.choice((0, 0, 0, 1, 2))
+                if wh == 0:
+                    w = rng.choice((0, 1, 2, length, length + 3, max(0, length - 1), rng.randrange(length + 2)))
+                elif wh == 1:
+                    w = rng.choice((0, 1, 2, 5))          # forward only: positions stay non-negative
+                else:
+                    w = 0                                 # "from the end" with where=0 (SubFile uses length - where)
+            else:
+                wh = rng.choice((0, 1, 2, 2, 3))
+                w = rng.choice((-7, -1, 0, 1, 3, length, -length))
+            ops.append(("seek", w, wh))
+        elif r < 0.93:
+            ops.append(("tell",))
+        else:
+            ops.append(("chunks", rng.choice((1, 2, 3, 7, 64, 4096))))
+    return ops
+
+
+def subfile_case(case):
+    """Worker: the program on a real SubFile (raw and wrapped in StructFile, as CompoundStorage.open_file
+    hands it out) and on an in-memory file over the member bytes (the specification)."""
+    import io
+    from whoosh.filedb.compound import SubFile
+    from whoosh.filedb.structfile import StructFile
+    parent = case["parent"]
+    off, length = case["offset"], case["length"]
+    member = parent[off:off + length]
+
+    def run(f, isspec):
+        obs = []
+        for op in case["ops"]:
+            try:
+                if op[0] == "read":
+                    obs.append(bytes(f.read(op[1])).hex() or "-")
+                elif op[0] == "readall":
+                    obs.append(bytes(f.read()).hex() or "-")
+                elif op[0] == "seek":
+                    f.seek(op[1], op[2])
+                    obs.append("ok")
+                elif op[0] == "tell":
+                    obs.append(str(f.tell()))
+                else:
+                    out = b""
+                    while True:
+                        chunk = f.read(op[1])
+                        if not chunk:
+                            break
+                        out += bytes(chunk)
+                    obs.append(out.hex() or "-")
+            except Exception:  # noqa
+                obs.append("err")
+        return obs
+    return dict(case=case, raw=run(SubFile(io.BytesIO(parent), off, length), False),
+                wrapped=run(StructFile(SubFile(io.BytesIO(parent), off, length)), False),
+                spec=run(io.BytesIO(member), True))
+
+
+def _subfile(ctx):
+    rng = ctx.rng("subfile")
+    cases = []
+    for _ in range(ctx.budget(1500, 20000)):
+        length = rng.choice((0, 1, 2, 5, 8, 9, 64, 100, 300))
+        pre = rng.choice((0, 0, 1, 12, 40))
+        post = rng.choice((0, 3, 20))
+        parent = bytes(rng.randrange(256) for _ in range(pre + length + post))
+        domain = rng.random() < 0.8
+        cases.append(dict(parent=parent, offset=pre, length=length, domain=domain,
+                          ops=_subfile_program(rng, length, domain)))
+    results = [subfile_case(c) for c in cases]
+    outs = ctx.driver.ask(["c20 misc subfile %s %d %d (%s)" % (sexp(c["parent"]), c["offset"], c["length"],
+                                                              " ".join("(" + " ".join(str(x) for x in op) + ")" for op in c["ops"]))
+                           for c in cases])
+    for res, mo in zip(results, outs):
+        c = res["case"]
+        if mo == "bad-op":
+            raise RuntimeError("driver rejected a subfile request")
+        m = list(parse_sexp(mo)[0])
+        brief = {"offset": c["offset"], "length": c["length"], "parent": len(c["parent"]), "ops": c["ops"]}
+        ctx.case(("subfile", c["parent"], c["offset"], c["length"], tuple(c["ops"])),
+                 nontrivial=c["length"] > 1 and c["offset"] > 0 and any(o not in ("-", "ok", "err", "0") for o in res["raw"]))
+        ctx.stat("subfile:%s" % ("in-domain" if c["domain"] else "outside-domain"))
+        for op in c["ops"]:
+            ctx.stat("subfile-op:%s" % op[0])
+        if res["raw"] != m:
+            i = next(j for j, (a, b) in enumerate(zip(res["raw"], m)) if a != b)
+            ctx.divergence("compound.SubFile.%s" % c["ops"][i][0], dict(brief, at=i), m[i][:40], res["raw"][i][:40])
+        if res["wrapped"] != res["raw"]:
+            ctx.divergence("structfile.StructFile(SubFile)-vs-SubFile", brief, res["raw"], res["wrapped"])
+        if c["domain"] and res["raw"] != res["spec"]:
+            i = next(j for j, (a, b) in enumerate(zip(res["raw"], res["spec"])) if a != b)
+            ctx.violation("SubFile.%s!=in-memory-file-over-member-bytes" % c["ops"][i][0], dict(brief, at=i),
+                          res["spec"][i][:40], res["raw"][i][:40],
+                          "the member view of a compound file does not read like the member file")
+    ctx.sample({"subfile": cases[3]["ops"], "model": outs[3][:200]})
+
+
+# ------------------------------------------------------------------------------------------------
 # base 85
 
 def _base85(ctx):
@@ -319,4 +432,5 @@ def _base85(ctx):
 def run(ctx):
     _sort(ctx)
     _compound(ctx)
+    _subfile(ctx)
     _base85(ctx)
